@@ -532,7 +532,7 @@ impl<'a> Printer<'a> {
         let mut first = true;
         let mut prev_multiline = false; // previous block was a step / text block (needs an empty line after)
         for b in &r.blocks {
-            let this_single = matches!(b, BlockM::Section(_) | BlockM::Mode(_) | BlockM::Meta(_, _));
+            let this_single = matches!(b, BlockM::Section(_) | BlockM::Mode(_) | BlockM::Meta(_, _) | BlockM::StepLine(_));
             if !first {
                 // an empty line is required between two multi-line blocks; single-line blocks may abut
                 let need_blank = !this_single && prev_multiline;
@@ -599,6 +599,14 @@ impl<'a> Printer<'a> {
                             }
                             _ => {}
                         }
+                    }
+                    prev_multiline = false;
+                }
+                BlockM::StepLine(l) => {
+                    self.out.push_str(l);
+                    if !self.plain && self.tape.chance(1, 6) {
+                        self.f.odd_spacing += 1;
+                        self.out.push_str("  ");
                     }
                     prev_multiline = false;
                 }
